@@ -105,22 +105,31 @@ ExecEv ==
     /\ mirror' = IF cache' # cache THEN <<>> ELSE mirror
     /\ UNCHANGED <<lazy, now, serial, handles, dump, dumpOf, nops, hist, loose>>
 
-\* the background `next` was invoked.  It may be logged before the stale Exec that caused it (that
-\* call has not returned yet); a second invocation for a key whose refresh is running is never allowed.
+\* the background `next` was invoked with question Ev.q.  It may be logged before the stale Exec that
+\* caused it (that call has not returned yet).  The refresh belongs to the key the cache was looked up
+\* under (f.key) whatever question it fetches; a second invocation for a key whose refresh is running is
+\* never allowed.
 RefreshStart ==
     /\ IsEvent("RefreshStart")
     /\ LET k == KeyOf(Ev.q)
-           mine == {f \in inflight : f.i = Ev.i /\ f.key = k} IN
-       /\ \A f \in mine : f.rid = 0
-       /\ inflight' = (inflight \ mine) \cup {[i |-> Ev.i, key |-> k, q |-> QOf(Ev.q), rid |-> Ev.sid]}
+           pend == {f \in inflight : f.i = Ev.i /\ f.rid = 0}
+           same == {f \in pend : f.key = k} IN
+       \/ \E f \in same :
+             inflight' = (inflight \ {f}) \cup {[f EXCEPT !.q = QOf(Ev.q), !.rid = Ev.sid]}
+       \/ /\ same = {}
+          /\ \E f \in pend :
+                inflight' = (inflight \ {f}) \cup {[f EXCEPT !.q = QOf(Ev.q), !.rid = Ev.sid]}
+       \/ /\ pend = {}
+          /\ ~(\E f \in inflight : f.i = Ev.i /\ f.key = k)
+          /\ inflight' = inflight \cup {[i |-> Ev.i, key |-> k, q |-> QOf(Ev.q), rid |-> Ev.sid]}
     /\ UNCHANGED <<lazy, now, cache, serial, handles, dump, dumpOf, mirror, obs, lastq, nops, hist, loose>>
 
 RefreshEndEv ==
     /\ IsEvent("RefreshEnd")
     /\ \E f \in inflight :
-          /\ f.i = Ev.i /\ f.key = KeyOf(Ev.q) /\ f.rid = Ev.sid
+          /\ f.i = Ev.i /\ f.rid = Ev.sid
           /\ inflight' = inflight \ {f}
-          /\ \/ cache' = Store(f.i, f.key, Ev.q, Ev.r, Ev.sid)
+          /\ \/ cache' = Store(f.i, f.key, Ev.q, Ev.r, Ev.sid)      \* under the key of the lookup, owner = what was fetched
              \/ f.i \in loose /\ cache' = cache
     /\ obs' = Ack("refreshed")
     /\ mirror' = IF cache' # cache THEN <<>> ELSE mirror
@@ -157,6 +166,7 @@ FlushEv ==
 
 DumpEv ==
     /\ IsEvent("Dump")
+    /\ Ev.status = 200           \* a dump request for a legal cache content succeeds and is decodable
     /\ LET i == Ev.i xs == ToSet(Ev.ents) live == LiveOf(cache[i])
            kept == {e \in live : \E x \in xs : DumpMatches(i, x, e)} IN
        /\ \A x \in xs : \E e \in live : DumpMatches(i, x, e)
